@@ -452,7 +452,7 @@ def run(ctx):
     check_handler_cases(ctx, cases)
     check_spec_cases(ctx, cases)
     # (b) whole path
-    ns = 120 if thorough else 30
+    ns = 80 if thorough else 30
     for k in range(ns):
         case = gen_stream(rng, n_replies=(1 if k % 3 else 2))
         L = len(stream_bytes(case))
@@ -477,7 +477,7 @@ def run(ctx):
         check_path_case(ctx, case, [[]] + [sorted(rng.sample(range(1, L), min(L - 1, 3))) for _ in range(2)])
         ctx.hist('path_linked', 'histories')
     # (d) one reply of the stream is not well-formed
-    for k in range(40 if thorough else 10):
+    for k in range(24 if thorough else 10):
         case = gen_stream(rng, n_replies=2 + k % 2)
         case['corrupt'] = k % len(case['docs'])
         if k % 2 == 0: case['filters'][case['corrupt']] = None
@@ -489,7 +489,7 @@ def run(ctx):
         for k in range(2):
             for _try in range(200):
                 case = gen_stream(rng, n_replies=2)
-                if len(stream_bytes(case)) < 300 and (case['filters'][0] is None) != (case['filters'][1] is None): break
+                if len(stream_bytes(case)) < 270 and (case['filters'][0] is None) != (case['filters'][1] is None): break
             L = len(stream_bytes(case))
             check_path_case(ctx, case, [list(p) for p in itertools.combinations(range(1, L), 2)])
         ctx.exhaustive = False
